@@ -26,6 +26,11 @@ fn bin_path(target: &str) -> PathBuf {
 }
 
 pub fn build(target: &str) -> Result<(), String> {
+    // development aid for long background runs that must not pick up a working tree that is
+    // being modified: with this flag file present the targets are used as they were last built
+    if std::path::Path::new("/dev/shm/vcheck-fuzz-nobuild").exists() && bin_path(target).exists() {
+        return Ok(());
+    }
     let out = Command::new("cargo")
         .args(["+nightly", "fuzz", "build", "--fuzz-dir", FUZZ_DIR, target])
         .env("CARGO_NET_OFFLINE", "true")
